@@ -110,6 +110,8 @@ pub use out_of_date::OutOfDate;
 pub use oxford_comma::OxfordComma;
 pub use oxymorons::Oxymorons;
 pub use pattern_linter::PatternLinter;
+#[cfg(harper_verif)]
+pub use pattern_linter::run_on_chunk;
 pub use pique_interest::PiqueInterest;
 pub use possessive_your::PossessiveYour;
 pub use pronoun_contraction::PronounContraction;
